@@ -945,3 +945,149 @@ Proof.
   destruct (queue g) as [|a q] eqn:E; [congruence|]. cbn [snd set_pc lpc].
   eexists. split; [|reflexivity]. rewrite <- E. apply nth_In. apply Nat.mod_upper_bound. rewrite E. cbn. lia.
 Qed.
+
+(* ================================================================== only running tasks spawn *)
+Definition rank (s : tstate) : nat :=
+  match s with
+  | Unborn => 0 | Created _ => 1 | Queued | Active _ | ExtOp _ => 2
+  | Terminated _ => 3 | Recycled _ => 4 | Destroyed | ExtDone => 5
+  end.
+
+Definition tshape (g g' : shared) (t : nat) : Prop :=
+  (tst g' = tst g /\ nextid g' = nextid g /\ parent g' = parent g) \/
+  (exists id s1, tst g' = upd (tst g) id s1 /\ nextid g' = nextid g /\ parent g' = parent g /\
+                 rank (tst g id) <= rank s1) \/
+  (exists st par, tst g' = upd (tst g) (nextid g) st /\ nextid g' = S (nextid g) /\
+                  parent g' = upd (parent g) (nextid g) par /\
+                  (forall p, par = Some p -> tst g p = Active t)).
+
+Lemma tshape_touch g g' t : tshape g g' t -> tshape g (touch g') t.
+Proof. unfold touch. destruct (suspended g'); auto. Qed.
+
+Lemma tshape_same g g' t : tst g' = tst g -> nextid g' = nextid g -> parent g' = parent g -> tshape g g' t.
+Proof. intros. left. auto. Qed.
+
+Lemma tshape_set g g' t id s0 s1 : tst g id = s0 -> rank s0 <= rank s1 ->
+  tst g' = upd (tst g) id s1 -> nextid g' = nextid g -> parent g' = parent g -> tshape g g' t.
+Proof.
+  intros H0 Hd A B C. right; left. exists id, s1. repeat split; auto. rewrite H0. exact Hd.
+Qed.
+
+Lemma ctl_tshape g l : tshape g (fst (ctl_step g l)) 0.
+Proof.
+  unfold ctl_step. destruct l as [p xt kt]. cbn [lpc ktodo].
+  destruct p; try (apply tshape_same; reflexivity).
+  - destruct kt as [|[] r]; [|destruct (suspended g)..]; apply tshape_same; reflexivity.
+  - destruct (gen_wait_continue (count g) false); apply tshape_same; reflexivity.
+  - destruct (i <=? nworkers g); [|apply tshape_same; reflexivity]. unfold cas_presleep. cbn [fst].
+    destruct (wstate_eqb (wst g i) WsRunning); apply tshape_same; reflexivity.
+  - destruct (i <=? nworkers g); [|apply tshape_same; reflexivity]. unfold cas_presleep. cbn [fst].
+    destruct (wstate_eqb (wst g i) WsRunning); apply tshape_same; reflexivity.
+  - destruct (wstate_eqb (wst g i) WsPreSleep); apply tshape_same; reflexivity.
+  - destruct (i <=? nworkers g); [|apply tshape_same; reflexivity].
+    destruct (wstate_eqb (wst g i) WsSleeping); apply tshape_same; reflexivity.
+Qed.
+
+Lemma ext_tshape t g l : owns g t (lpc l) -> tshape g (fst (ext_step t g l)) t.
+Proof.
+  intros Ho. unfold ext_step. destruct l as [p xt kt]. cbn [lpc xtodo] in *.
+  destruct p; try (apply tshape_same; reflexivity); cbn [fst].
+  - destruct xt as [|[] r]; try (apply tshape_same; reflexivity); cbn [fst].
+    + right; right. exists (Created t), None. repeat split. intros p0 K. discriminate.
+    + right; right. exists (ExtOp t), None. repeat split. intros p0 K. discriminate.
+  - cbn in Ho. apply (tshape_set g _ t child (Created t) Queued Ho); try reflexivity; cbn; lia.
+  - cbn in Ho. apply (tshape_set g _ t id (ExtOp t) ExtDone Ho); try reflexivity; cbn; lia.
+  - destruct (finalized g); apply tshape_same; reflexivity.
+  - destruct (gen_wait_continue (count g) false); apply tshape_same; reflexivity.
+  - destruct (gen_wait_continue (count g) false); apply tshape_same; reflexivity.
+Qed.
+
+Lemma worker_tshape o t g (ls : locals local) : I1 g ls -> tshape g (fst (worker_step o t g (ls t))) t.
+Proof.
+  intros H. pose proof (i1_owns _ _ H t) as Ho. unfold worker_step.
+  destruct (ls t) as [p xt kt] eqn:El. cbn [lpc] in *.
+  assert (POP : forall pick l0, tshape g (fst (pop_or_idle pick t g l0)) t).
+  { intros pick l0. unfold pop_or_idle. destruct (queue g) as [|a q] eqn:Q; [apply tshape_same; reflexivity|].
+    cbn [fst]. apply tshape_touch. rewrite <- Q.
+    eapply (tshape_set g _ t _ Queued (Active t)); try reflexivity; try (cbn; lia).
+    apply (i1_queue _ _ H). apply nth_In. apply Nat.mod_upper_bound. rewrite Q. cbn. lia. }
+  destruct p; try (apply tshape_same; reflexivity).
+  - destruct (wst g t); [apply POP| |apply POP]. destruct (snd o); [apply tshape_same; reflexivity|apply POP].
+  - cbn in Ho. destruct rest as [|[] r]; cbn [fst]; try (apply tshape_touch; apply tshape_same; reflexivity).
+    + apply tshape_touch. destruct (Nat.eqb id 0);
+        apply (tshape_set g _ t id (Active t) (Terminated t) Ho); try reflexivity; cbn; lia.
+    + apply tshape_touch. apply (tshape_set g _ t id (Active t) Queued Ho); try reflexivity; cbn; lia.
+    + apply tshape_touch. right; right. exists (Created t), (Some id). repeat split.
+      intros p0 K. inversion K. subst. exact Ho.
+    + destruct (gen_wait_continue (count g) true); cbn [fst]; apply tshape_touch;
+        [apply (tshape_set g _ t id (Active t) Queued Ho); try reflexivity; cbn; lia|apply tshape_same; reflexivity].
+  - cbn in Ho. destruct Ho as [Ha Hc]. cbn [fst]. apply tshape_touch.
+    apply (tshape_set g _ t child (Created t) Queued Hc); try reflexivity; cbn; lia.
+  - cbn in Ho. cbn [fst]. apply (tshape_set g _ t id (Terminated t) (Recycled t) Ho); try reflexivity; cbn; lia.
+  - cbn in Ho. cbn [fst]. apply (tshape_set g _ t id (Recycled t) Destroyed Ho); try reflexivity; cbn; lia.
+  - destruct (wake g t); apply tshape_same; reflexivity.
+Qed.
+
+Lemma step_tshape o t g (ls : locals local) : I1 g ls -> tshape g (fst (lc_tstep o t g (ls t))) t.
+Proof.
+  intros H. unfold lc_tstep. destruct (Nat.eqb t 0) eqn:T0.
+  - apply Nat.eqb_eq in T0. subst t. apply ctl_tshape.
+  - destruct (is_worker g t); [apply worker_tshape; exact H|apply ext_tshape; apply (i1_owns _ _ H)].
+Qed.
+
+Definition J (g0 g : shared) : Prop :=
+  nextid g0 <= nextid g /\
+  (forall p, rank (tst g0 p) <= rank (tst g p)) /\
+  (forall c p, nextid g0 <= c -> c < nextid g -> parent g c = Some p -> rank (tst g0 p) <= 2).
+
+Lemma J_step g0 o t g (ls : locals local) : I1 g ls -> J g0 g -> J g0 (fst (lc_tstep o t g (ls t))).
+Proof.
+  intros H (J1 & J2 & J3).
+  destruct (step_tshape o t g ls H) as [(A & B & C)|[(id & s1 & A & B & C & D)|(st & par & A & B & C & D)]];
+    unfold J; rewrite A, B, C.
+  - auto.
+  - split; [exact J1|split; [|exact J3]]. intros p. unfold upd. destruct (Nat.eqb p id) eqn:Q.
+    + apply Nat.eqb_eq in Q. subst p. specialize (J2 id). lia.
+    + apply J2.
+  - split; [lia|split].
+    + intros p. unfold upd. destruct (Nat.eqb p (nextid g)) eqn:Q; [|apply J2].
+      apply Nat.eqb_eq in Q. subst p. specialize (J2 (nextid g)).
+      rewrite (i1_fresh _ _ H (nextid g)) in J2 by lia. cbn in J2. lia.
+    + intros c p Hc Hlt. unfold upd. destruct (Nat.eqb c (nextid g)) eqn:Q.
+      * intros K. specialize (D p K). specialize (J2 p). rewrite D in J2. cbn in J2. exact J2.
+      * apply Nat.eqb_neq in Q. apply J3; [exact Hc|lia].
+Qed.
+
+Lemma J_run g0 : forall sched c, I1 (fst c) (snd c) -> J g0 (fst c) ->
+  I1 (fst (run lc_tstep sched c)) (snd (run lc_tstep sched c)) /\ J g0 (fst (run lc_tstep sched c)).
+Proof.
+  intros sched c H HJ.
+  apply (run_inv shared local (nat * bool) lc_tstep (fun g ls => I1 g ls /\ J g0 g)); [|split; assumption].
+  intros o t g ls [A B]. split; [apply I1_step; exact A|apply J_step; assumption].
+Qed.
+
+Lemma destroyed_rank s : is_destroyed s = true <-> rank s = 5.
+Proof. destruct s; cbn; split; intros; try discriminate; try reflexivity; lia. Qed.
+
+(* the other half of wait_drains: after the predicate let the caller go, everything that existed stays
+   destroyed and can never get a descendant — every task created later was spawned by an OS thread
+   or by a task that was itself created later *)
+Lemma no_late_descendants sched0 w entry r xs ks sched1 :
+  let c0 := lc_run sched0 w entry r xs ks in
+  gen_wait_continue (count (fst c0)) false = false ->
+  let c1 := run lc_tstep sched1 c0 in
+  (forall p, p < nextid (fst c0) -> is_destroyed (tst (fst c1) p) = true) /\
+  (forall c p, nextid (fst c0) <= c -> c < nextid (fst c1) -> parent (fst c1) c = Some p -> nextid (fst c0) <= p).
+Proof.
+  cbn zeta. intros Hw. pose proof (I1_reachable sched0 w entry r xs ks) as H0. cbn zeta in H0.
+  pose proof (wait_drains_os sched0 w entry r xs ks Hw) as D. cbn zeta in D.
+  set (c0 := lc_run sched0 w entry r xs ks) in *.
+  assert (J0 : J (fst c0) (fst c0)).
+  { split; [lia|split; [auto|]]. intros c p A B. lia. }
+  destruct (J_run (fst c0) sched1 c0 H0 J0) as [H1 (J1 & J2 & J3)]. split.
+  - intros p Hp. specialize (D p Hp). apply destroyed_rank in D. apply destroyed_rank.
+    specialize (J2 p). assert (rank (tst (fst (run lc_tstep sched1 c0)) p) <= 5) by (destruct (tst (fst (run lc_tstep sched1 c0)) p); cbn; lia).
+    lia.
+  - intros c p A B K. destruct (Nat.lt_ge_cases p (nextid (fst c0))) as [Hp|Hp]; [exfalso|exact Hp].
+    specialize (J3 c p A B K). specialize (D p Hp). apply destroyed_rank in D. lia.
+Qed.
